@@ -9,7 +9,6 @@ import Corro.Props.C02
 #print axioms Corro.Book.advertised_partition
 #print axioms Corro.Book.advertised_inside
 #print axioms Corro.Book.advertised_exact
-#print axioms Corro.Book.advertised_held_counterexample
-#print axioms Corro.Book.advertised_held_partial
+#print axioms Corro.Book.advertised_held
 #print axioms Corro.Book.from_conn_roundtrip
 #print axioms Corro.Book.from_conn_head
